@@ -12,7 +12,7 @@ import os
 from vcheck import core, svcgen, svcreal
 
 FIXED = {'suggestCatchesAll': True, 'shortDeliveryOk': True, 'deleteCascadesOps': True,
-         'metadataAtomic': True, 'esFailureFinishesOp': True, 'createKeepsInfeasible': True}
+         'metadataAtomic': True, 'esFailureFinishesOp': True, 'createKeepsInfeasible': True, 'esAnswerFinishesOp': True}
 
 W_CREATE = {'op': 'createStudy', 'owner': 'o', 'display': 's', 'state': 'ACTIVE'}
 SUGG = lambda n: {'kind': 'ok', 'sugg': [{'params': i + 1, 'md': []} for i in range(n)], 'delta': []}
@@ -55,6 +55,13 @@ WITNESSES = {
         lambda run: all(not e['active'] for s in run['final']['studies'] for e in s['es']),
         'earlystop-failure-leaves-record-active',
         'an exception from the early-stopping algorithm leaves the trial\'s early-stopping record ACTIVE; every later check is answered from it without reaching the algorithm'),
+    'esAnswerFinishesOp': (
+        [W_CREATE, {'op': 'suggest', 'client': 'w', 'count': 1, 'alg': SUGG(1)},
+         {'op': 'checkEarlyStop', 'id': 1, 'es': {'kind': 'ok', 'decisions': [], 'delta': []}},
+         {'op': 'checkEarlyStop', 'id': 1, 'es': {'kind': 'ok', 'decisions': [], 'delta': [{'t': 99, 'kv': ['', 'k', 'v']}]}}],
+        lambda run: all(not e['active'] for s in run['final']['studies'] for e in s['es']) and run['resps'][3].get('k') == 'err',
+        'earlystop-no-decision-leaves-record-active',
+        'an early-stopping answer without a decision for the checked trial (or one whose metadata cannot be applied) leaves the trial\'s early-stopping record ACTIVE; every later check is answered from it without reaching the algorithm'),
 }
 
 
